@@ -94,9 +94,12 @@ def famSum (_ : Args) : Except String Fam := pure {
 /-! ### Max / Min -/
 
 def packExt (pick : Q → Q → Q) (empty : XQ) : Pack :=
-  ⟨Option Q, additive ⟨none, opick pick⟩
-    (fun a => do let i ← liftP (a.tensor "input"); extStat pick i.data)
-    (fun s => .ok (showScalarX (extOut empty s)))⟩
+  let m := extImpl pick empty
+  ⟨Option Q, {
+    init := m.init
+    upd := fun s a => do let i ← liftP (a.tensor "input"); m.upd s i.data
+    mrg := m.mrg
+    out := fun s => do pure (showScalarX (← m.out s)) }⟩
 
 /-! ### AUC -/
 
@@ -137,13 +140,13 @@ def packAUC (cfg : Args) : Except String Pack :=
 def showCov (r : List Q × Mat) : String := showVecQ r.1 ++ " " ++ showMat r.2 r.1.length
 
 def packCovariance (_ : Args) : Except String Pack := pure ⟨CovS, {
-  init := covInit
+  init := covImpl.init
   upd := fun s a => do
     let o ← liftP (a.tensor "obs")
     if o.ndim != 2 then throw .assertion
-    pure (covUpdate (o.shape.getD 1 0) s o.rows)
-  mrg := fun s ss => .ok (ss.foldl covCombine s)
-  out := fun s => do pure (showCov (← covCompute s)) }⟩
+    covImpl.upd s (o.shape.getD 1 0, o.rows)
+  mrg := covImpl.mrg
+  out := fun s => do pure (showCov (← covImpl.out s)) }⟩
 
 /-! ### mean squared error -/
 
@@ -275,12 +278,12 @@ def packPsnr (cfg : Args) : Except String Pack :=
   match dataRangeOf cfg with
   | .error _ => .error "bad data_range"
   | .ok dr =>
-  let auto := dr.isNone
+  let m := psnrImpl dr
   .ok ⟨PsnrS, {
-    init := psnrInit dr
-    upd := fun s a => do let (x, t) ← psnrArgs a; psnrUpd auto s x t
-    mrg := fun s ss => .ok (psnrMrg auto s ss)
-    out := fun s => .ok (showScalarX (tenLog10F (psnrArg s.sse s.n s.range))) }⟩
+    init := m.init
+    upd := fun s a => do m.upd s (← psnrArgs a)
+    mrg := m.mrg
+    out := fun s => do pure (showScalarX (tenLog10F (← m.out s))) }⟩
 
 /-! ### binary normalized entropy (end values evaluated with doubles) -/
 
@@ -362,10 +365,10 @@ def fnThroughput (a : Args) : Except Err String := do
   pure (showScalarX (.val (← throughputFn n e)))
 
 def packThroughput (_ : Args) : Except String Pack := pure ⟨Q × Q, {
-  init := (0, 0)
-  upd := fun s a => do let (n, e) ← thrArgs a; thrUpd s n e
-  mrg := fun s ss => .ok (thrMrg s ss)
-  out := fun s => .ok (showScalarX (.val (thrOut s))) }⟩
+  init := thrImpl.init
+  upd := fun s a => do thrImpl.upd s (← thrArgs a)
+  mrg := thrImpl.mrg
+  out := fun s => do pure (showScalarX (.val (← thrImpl.out s))) }⟩
 
 /-! ### Fréchet audio distance: moments, and the rational part of the Gaussian Fréchet distance -/
 
